@@ -177,9 +177,12 @@ Record GA (x : ist) : Prop := {
           noser x /\ Z.of_nat k = word (mem (base x)) 0%nat / count + 1;
   g_woken : forall u, is_wait (stk (base x) u) -> ~ In u (pw x) ->
             (forall S, is_ser (stk (base x) S) -> rnd (stk (base x) u) = rnd (stk (base x) S)) /\
-            (noser x -> Z.of_nat (rnd (stk (base x) u)) = word (mem (base x)) 0%nat / count);
+            (noser x -> Z.of_nat (rnd (stk (base x) u)) = word (mem (base x)) 0%nat / count) /\
+            Z.of_nat (rnd (stk (base x) u)) * count <= word (mem (base x)) 0%nat;
   g_rets : forall t k r, In (t, k, r) (rets x) -> Z.of_nat k * count <= word (mem (base x)) 0%nat;
-  g_arr : forall i t k v, nth_error (arr x) i = Some (t, k, v) -> Z.of_nat k = Z.of_nat i / count + 1
+  g_arr : forall i t k v, nth_error (arr x) i = Some (t, k, v) -> Z.of_nat k = Z.of_nat i / count + 1;
+  g_wait_lt : forall u, is_wait (stk (base x) u) -> (u < nthr (base x))%nat;
+  g_infl_none : noser x -> infl x = None
 }.
 
 (* the waiter list *)
@@ -305,16 +308,18 @@ Proof. repeat split; auto. Qed.
 Lemma GA_frame count x x' :
   nthr (base x') = nthr (base x) -> word (mem (base x')) 0%nat = word (mem (base x)) 0%nat ->
   pw x' = pw x -> rets x' = rets x -> arr x' = arr x ->
+  (noser x -> infl x' = None) ->
   (forall u, same_obs (stk (base x) u) (stk (base x') u)) ->
   GA count x -> GA count x'.
 Proof.
-  intros En Ew Ep Er Ea Ho A.
+  intros En Ew Ep Er Ea Hin Ho A.
   assert (Hs : forall u, is_ser (stk (base x') u) <-> is_ser (stk (base x) u)) by (intros u; apply Ho).
   assert (Hw : forall u, is_wait (stk (base x') u) <-> is_wait (stk (base x) u)) by (intros u; apply Ho).
   assert (Hn : noser x' <-> noser x).
   { unfold noser. split; intros H S; specialize (H S); rewrite Hs in *; exact H. }
-  destruct A as [A1 A2 A3 A4 A5 A6 A7 A8 A9 A10 A11].
-  constructor; rewrite ?En, ?Ew, ?Ep, ?Er, ?Ea; auto.
+  destruct A as [A1 A2 A3 A4 A5 A6 A7 A8 A9 A10 A11 A12 A13].
+  constructor; rewrite ?En, ?Ew, ?Ep, ?Er, ?Ea; auto; try (intros u; rewrite Hw; apply A12);
+    try (rewrite Hn; exact Hin).
   - intros S S'. rewrite !Hs. apply A3.
   - intros S HS. rewrite Hs in HS. destruct (Ho S) as (_ & _ & Hr & _).
     destruct (Hr (or_introl HS)) as [-> ->]. apply A4. exact HS.
@@ -325,9 +330,9 @@ Proof.
     intros S HS. rewrite Hs in HS. destruct (Ho S) as (_ & _ & Hr' & _).
     destruct (Hr' (or_introl HS)) as [-> _]. apply B3. exact HS.
   - intros u k Hu Hp. rewrite Hn. apply (A8 u k Hu). apply Ho. exact Hp.
-  - intros u. rewrite Hw, Hn. intros H1 H2. destruct (A9 u H1 H2) as [B1 B2].
+  - intros u. rewrite Hw, Hn. intros H1 H2. destruct (A9 u H1 H2) as (B1 & B2 & B3).
     destruct (Ho u) as (_ & _ & Hr & _). destruct (Hr (or_intror H1)) as [-> _].
-    split; [|exact B2]. intros S HS. rewrite Hs in HS. destruct (Ho S) as (_ & _ & Hr' & _).
+    split; [|split; [exact B2|exact B3]]. intros S HS. rewrite Hs in HS. destruct (Ho S) as (_ & _ & Hr' & _).
     destruct (Hr' (or_introl HS)) as [-> _]. apply B1. exact HS.
 Qed.
 
@@ -449,7 +454,7 @@ Proof.
   destruct P as [P1 P2 P3 P4 P5 P6 P7 P8 P9 P10 P11 P12 P13].
   assert (Eno : nodes (lstep x t) = nodes x) by (unfold nodes; rewrite Em, P4, Gc; reflexivity).
   constructor.
-  - apply (GA_frame count x); auto; try (rewrite Em, P3; reflexivity).
+  - apply (GA_frame count x); auto; try (rewrite Em, P3; reflexivity); try (intros Hns; rewrite Gi; apply (g_infl_none _ _ A Hns)).
     intros u. destruct (Nat.eq_dec u t) as [->|Ne]; [rewrite Es; exact So|].
     rewrite Eo by exact Ne. apply same_obs_refl.
   - apply (GL_frame x); auto; try (rewrite Em, ?P1, ?P2, ?P4, ?P5; reflexivity).
@@ -862,7 +867,7 @@ Proof.
   assert (Hwn : ~ In w (nodes x)) by (rewrite Hw; apply (g_held_nodes _ N); rewrite <- Hw; exact Hnz).
   assert (Hne : forall nd, In nd (nodes x) -> nd <> w) by (intros nd Hi ->; exact (Hwn Hi)).
   constructor.
-  - apply (GA_frame count x); auto; try (rewrite Em, W2; reflexivity).
+  - apply (GA_frame count x); auto; try (rewrite Em, W2; reflexivity); try (intros Hns; rewrite Gi; apply (g_infl_none _ _ A Hns)).
     intros u. destruct (Nat.eq_dec u t) as [->|Ne]; [rewrite Es; exact So|].
     rewrite Eo by exact Ne. apply same_obs_refl.
   - apply (GL_frame x); auto; try (rewrite Em, ?W3, ?W4; reflexivity).
@@ -953,7 +958,8 @@ Proof.
   { intros u. destruct (Nat.eqb_spec u t) as [->|Ne]; [rewrite Es; reflexivity|rewrite Eo by exact Ne; reflexivity]. }
   assert (Hht : held (stk (base x) t) = O) by (rewrite E; reflexivity).
   constructor.
-  - apply (GA_frame count x); auto; try (rewrite Em; reflexivity).
+  - apply (GA_frame count x); auto; try (rewrite Em; reflexivity); try (intros Hns; rewrite Gi; apply (g_infl_none _ _ A Hns));
+      try (intros Hns; exfalso; apply (Hns t); rewrite E; do 2 eexists; reflexivity).
     intros u. destruct (Nat.eq_dec u t) as [->|Ne]; [rewrite Es, E; obs|].
     rewrite Eo by exact Ne. apply same_obs_refl.
   - apply (GL_frame x); auto; try (rewrite Em; reflexivity).
@@ -1109,7 +1115,8 @@ Proof.
   assert (Hh' : forall u, held (stk (base (lstep x t)) u) = if Nat.eqb u t then O else held (stk (base x) u)).
   { intros u. destruct (Nat.eqb_spec u t) as [->|Ne]; [rewrite Es; reflexivity|rewrite Eo by exact Ne; reflexivity]. }
   constructor.
-  - apply (GA_frame count x); auto; try (rewrite Em; reflexivity).
+  - apply (GA_frame count x); auto; try (rewrite Em; reflexivity); try (intros Hns; rewrite Gi; apply (g_infl_none _ _ A Hns));
+      try (intros Hns; exfalso; apply (Hns t); rewrite E; do 2 eexists; reflexivity).
     intros u. destruct (Nat.eq_dec u t) as [->|Ne]; [rewrite Es, E; obs|].
     rewrite Eo by exact Ne. apply same_obs_refl.
   - apply (GL_frame x); auto; try (rewrite Em; reflexivity).
@@ -1170,7 +1177,8 @@ Proof.
   { intros u. destruct (Nat.eqb_spec u t) as [->|Ne]; [rewrite Es; reflexivity|rewrite Eo by exact Ne; reflexivity]. }
   destruct Lg as [L1 L2 L3 L4 L5 L6 L7].
   constructor.
-  - apply (GA_frame count x); auto; try (rewrite Em; reflexivity).
+  - apply (GA_frame count x); auto; try (rewrite Em; reflexivity); try (intros Hns; rewrite Gi; apply (g_infl_none _ _ A Hns));
+      try (intros Hns; exfalso; apply (Hns t); rewrite E; do 2 eexists; reflexivity).
     intros u. destruct (Nat.eq_dec u t) as [->|Ne]; [rewrite Es, E; obs|].
     rewrite Eo by exact Ne. apply same_obs_refl.
   - constructor; rewrite ?Eno, ?Gc, ?Gi, ?Gp.
@@ -1234,7 +1242,8 @@ Proof.
   destruct (linked_link m (stk (base x)) (stk (base (lstep x t))) p nd t [FC (BRet n k 0)]
               (chain x) (qhead m 0%nat) L1 L6 Hin E) as (Ll & Hp & Hz); [rewrite Es; cbn; tauto|exact Eo|exact L4|].
   constructor.
-  - apply (GA_frame count x); auto; try (rewrite Em; reflexivity).
+  - apply (GA_frame count x); auto; try (rewrite Em; reflexivity); try (intros Hns; rewrite Gi; apply (g_infl_none _ _ A Hns));
+      try (intros Hns; exfalso; apply (Hns t); rewrite E; do 2 eexists; reflexivity).
     intros u. destruct (Nat.eq_dec u t) as [->|Ne]; [rewrite Es, E; obs|].
     rewrite Eo by exact Ne. apply same_obs_refl.
   - constructor; rewrite ?Eno, ?Gc, ?Gi, ?Gp; auto.
@@ -1336,7 +1345,8 @@ Proof.
   assert (Hht : held (stk (base x) t) = O) by (rewrite E; reflexivity).
   rewrite Ech in L6. cbn in L6. apply NoDup_cons_iff in L6. destruct L6 as [Nf Ns'].
   constructor.
-  - apply (GA_frame count x); auto; try (rewrite Em; reflexivity).
+  - apply (GA_frame count x); auto; try (rewrite Em; reflexivity); try (intros Hns; rewrite Gi; apply (g_infl_none _ _ A Hns));
+      try (intros Hns; exfalso; apply (Hns t); rewrite E; do 2 eexists; reflexivity).
     intros u. destruct (Nat.eq_dec u t) as [->|Ne]; [rewrite Es, E; obs|].
     rewrite Eo by exact Ne. apply same_obs_refl.
   - constructor; rewrite ?Eno', ?Gc, ?Gi, ?Gp.
@@ -1388,3 +1398,717 @@ Proof.
            ++ intros _. rewrite Em. auto.
 Qed.
 End Steps2.
+
+Lemma remove_nodup (l : list nat) a : NoDup l -> NoDup (remove Nat.eq_dec a l).
+Proof.
+  induction l as [|b l IH]; intros N; cbn; [constructor|].
+  inversion N; subst. destruct (Nat.eq_dec a b); [auto|]. constructor; auto.
+  intros H. apply in_remove in H. tauto.
+Qed.
+
+Lemma remove_length (l : list nat) a : NoDup l -> In a l ->
+  S (length (remove Nat.eq_dec a l)) = length l.
+Proof.
+  induction l as [|b l IH]; intros N H; [destruct H|]. inversion N; subst. cbn.
+  destruct (Nat.eq_dec a b) as [->|Ne].
+  - rewrite notin_remove by assumption. reflexivity.
+  - cbn. f_equal. apply IH; [assumption|]. destruct H; [congruence|assumption].
+Qed.
+
+Section GAsteps.
+Variable count : Z.
+Hypothesis Hcount : 1 <= count.
+
+(* the serial fiber t schedules f and goes on popping *)
+Lemma GA_wake_continue x x' t f wc :
+  GA count x ->
+  (forall u, u <> t -> same_obs (stk (base x) u) (stk (base x') u)) ->
+  is_ser (stk (base x) t) -> is_ser (stk (base x') t) ->
+  rnd (stk (base x') t) = rnd (stk (base x) t) ->
+  wcof (stk (base x) t) = wc -> wcof (stk (base x') t) = wc + 1 -> wc + 1 < count - 1 ->
+  nthr (base x') = nthr (base x) -> word (mem (base x')) 0%nat = word (mem (base x)) 0%nat ->
+  pw x' = remove Nat.eq_dec f (pw x) -> In f (pw x) -> rets x' = rets x -> arr x' = arr x ->
+  GA count x'.
+Proof.
+  intros A Ho St St' Er Ew Ew' Hlt En Ewd Ep Hf Err Ea.
+  assert (Hs : forall u, is_ser (stk (base x') u) <-> is_ser (stk (base x) u)).
+  { intros u. destruct (Nat.eq_dec u t) as [->|Ne]; [tauto|apply (Ho u Ne)]. }
+  assert (Hnw : ~ is_wait (stk (base x) t) /\ ~ is_wait (stk (base x') t)).
+  { destruct St as (n1 & k1 & B1). destruct St' as (n2 & k2 & B2). unfold is_wait. rewrite B1, B2.
+    split; intros (? & ? & ?); discriminate. }
+  assert (Hw : forall u, is_wait (stk (base x') u) <-> is_wait (stk (base x) u)).
+  { intros u. destruct (Nat.eq_dec u t) as [->|Ne]; [tauto|apply (Ho u Ne)]. }
+  assert (Hr : forall u, is_ser (stk (base x) u) \/ is_wait (stk (base x) u) ->
+                         rnd (stk (base x') u) = rnd (stk (base x) u)).
+  { intros u H. destruct (Nat.eq_dec u t) as [->|Ne]; [exact Er|]. apply (Ho u Ne). exact H. }
+  assert (Hn : noser x' <-> noser x).
+  { unfold noser. split; intros H S; specialize (H S); rewrite Hs in *; exact H. }
+  assert (Nn : ~ noser x) by (intros H; exact (H t St)).
+  assert (Uq : forall S, is_ser (stk (base x) S) -> S = t) by (intros S HS; apply (g_ser1 _ _ A); assumption).
+  destruct A as [A1 A2 A3 A4 A5 A6 A7 A8 A9 A10 A11 A12 A13].
+  destruct (A4 t St) as (B1 & B2 & B3 & B4 & B5).
+  constructor; rewrite ?En, ?Ewd, ?Err, ?Ea; auto.
+  - intros S S'. rewrite !Hs. apply A3.
+  - intros S HS. rewrite Hs in HS. pose proof (Uq S HS) as ->. rewrite Er, Ew', Ep.
+    split; [exact B1|]. split; [exact B2|]. pose proof (remove_length _ f A6 Hf). rewrite Ew in B3. lia.
+  - rewrite Hn. tauto.
+  - rewrite Ep. apply remove_nodup. exact A6.
+  - intros u Hu. rewrite Ep in Hu. apply in_remove in Hu. destruct Hu as [Hu _].
+    destruct (A7 u Hu) as (C1 & C2 & C3 & C4). rewrite Hw, Hn, (Hr u (or_intror C2)).
+    split; [exact C1|]. split; [exact C2|]. split; [|tauto].
+    intros S HS. rewrite Hs in HS. rewrite (Hr S (or_introl HS)). apply C3. exact HS.
+  - intros u k Hu Hp. rewrite Hn. destruct (Nat.eq_dec u t) as [->|Ne].
+    + exfalso. destruct St' as (n2 & k2 & B). unfold pre_round in Hp. unfold bot in B.
+      destruct (stk (base x') t) as [|[] [|[] [|]]]; try discriminate; cbn in B; destruct c; discriminate.
+    + apply (A8 u k Hu). apply (Ho u Ne). exact Hp.
+  - intros u. rewrite Hw, Hn. intros H1 H2. rewrite (Hr u (or_intror H1)). split; [|split; [tauto|]].
+    + intros S HS. rewrite Hs in HS. rewrite (Hr S (or_introl HS)).
+      destruct (in_dec Nat.eq_dec u (pw x)) as [Hi|Hi].
+      * apply (A7 u Hi). exact HS.
+      * apply (A9 u H1 Hi). exact HS.
+    + destruct (in_dec Nat.eq_dec u (pw x)) as [Hi|Hi].
+      * destruct (A7 u Hi) as (_ & _ & C3 & _). rewrite (C3 t St). lia.
+      * apply (A9 u H1 Hi).
+  - intros u. rewrite Hw. apply A12.
+  - intros H. exfalso. apply Nn. apply Hn. exact H.
+Qed.
+
+Lemma start_stack_obs t n k : ~ is_ser (start_stack t n k) /\ ~ is_wait (start_stack t n k) /\
+  (forall k', pre_round (start_stack t n k) = Some k' -> k' = k).
+Proof.
+  destruct n; cbn; repeat split; try (intros (? & ? & ?); discriminate); intros k' H; try discriminate.
+  injection H as <-. reflexivity.
+Qed.
+
+(* the serial fiber t returns (all its waiters have been scheduled) *)
+Lemma GA_serial_return x x' t n k :
+  GA count x ->
+  (forall u, u <> t -> same_obs (stk (base x) u) (stk (base x') u)) ->
+  bot (stk (base x) t) = Some (BRet n k 1) -> stk (base x') t = start_stack t n (S k) ->
+  nthr (base x') = nthr (base x) -> word (mem (base x')) 0%nat = word (mem (base x)) 0%nat ->
+  pw x' = [] -> rets x' = rets x ++ [(t, k, 1)] -> arr x' = arr x -> infl x' = None ->
+  GA count x'.
+Proof.
+  intros A Ho Bt Es En Ewd Ep Err Ea Ei.
+  assert (St : is_ser (stk (base x) t)) by (do 2 eexists; exact Bt).
+  assert (Rt : rnd (stk (base x) t) = k) by (unfold rnd; rewrite Bt; reflexivity).
+  destruct (start_stack_obs t n (S k)) as (O1 & O2 & O3). rewrite <- Es in O1, O2, O3.
+  assert (Uq : forall S, is_ser (stk (base x) S) -> S = t) by (intros S HS; apply (g_ser1 _ _ A); assumption).
+  assert (Nn' : noser x').
+  { intros S HS. destruct (Nat.eq_dec S t) as [->|Ne]; [exact (O1 HS)|].
+    apply (Ho S Ne) in HS. apply Ne. apply Uq. exact HS. }
+  destruct A as [A1 A2 A3 A4 A5 A6 A7 A8 A9 A10 A11 A12 A13].
+  destruct (A4 t St) as (B1 & B2 & B3 & B4 & B5). rewrite Rt in B2.
+  assert (Hcz : count <> 0) by lia.
+  constructor; rewrite ?En, ?Ewd, ?Ea, ?Ep; auto.
+  - intros S S' HS. exfalso. exact (Nn' S HS).
+  - intros S HS. exfalso. exact (Nn' S HS).
+  - intros _. cbn. rewrite B2. symmetry. apply Z_mod_mult.
+  - constructor.
+  - intros u [].
+  - intros u k' Hu Hp. split; [exact Nn'|]. destruct (Nat.eq_dec u t) as [->|Ne].
+    + rewrite (O3 _ Hp), B2, Z.div_mul by exact Hcz. lia.
+    + exfalso. apply (Ho u Ne) in Hp. destruct (A8 u k' Hu Hp) as [Hns _]. exact (Hns t St).
+  - intros u Hw _. split; [intros S HS; exfalso; exact (Nn' S HS)|].
+    destruct (Nat.eq_dec u t) as [->|Ne]; [exfalso; exact (O2 Hw)|].
+    pose proof (proj1 (proj1 (proj2 (Ho u Ne))) Hw) as Hw0.
+    destruct (Ho u Ne) as (_ & _ & Hr & _). destruct (Hr (or_intror Hw0)) as [-> _].
+    assert (Hk : rnd (stk (base x) u) = k).
+    { rewrite <- Rt. destruct (in_dec Nat.eq_dec u (pw x)) as [Hi|Hi].
+      - apply (A7 u Hi). exact St.
+      - apply (A9 u Hw0 Hi). exact St. }
+    rewrite Hk, B2, Z.div_mul by exact Hcz. split; [reflexivity|lia].
+  - intros t0 k0 r0. rewrite Err, in_app_iff. intros [H|[H|[]]]; [eauto|]. injection H as <- <- <-. lia.
+  - intros u Hw. destruct (Nat.eq_dec u t) as [->|Ne]; [exfalso; exact (O2 Hw)|]. apply A12. apply (Ho u Ne). exact Hw.
+Qed.
+
+(* a woken waiter t returns; it may re-enter only if no serial fiber is active *)
+Lemma GA_waiter_return x x' t n k :
+  GA count x ->
+  (forall u, u <> t -> same_obs (stk (base x) u) (stk (base x') u)) ->
+  bot (stk (base x) t) = Some (BRet n k 0) -> ~ In t (pw x) -> stk (base x') t = start_stack t n (S k) ->
+  (n = O \/ noser x) ->
+  nthr (base x') = nthr (base x) -> word (mem (base x')) 0%nat = word (mem (base x)) 0%nat ->
+  pw x' = pw x -> rets x' = rets x ++ [(t, k, 0)] -> arr x' = arr x -> infl x' = infl x ->
+  GA count x'.
+Proof.
+  intros A Ho Bt Hq Es Hreg En Ewd Ep Err Ea Ei.
+  assert (Wt : is_wait (stk (base x) t)) by (do 2 eexists; exact Bt).
+  assert (Nst : ~ is_ser (stk (base x) t)) by (unfold is_ser; rewrite Bt; intros (? & ? & ?); discriminate).
+  assert (Rt : rnd (stk (base x) t) = k) by (unfold rnd; rewrite Bt; reflexivity).
+  destruct (start_stack_obs t n (S k)) as (O1 & O2 & O3). rewrite <- Es in O1, O2, O3.
+  assert (Hs : forall u, is_ser (stk (base x') u) <-> is_ser (stk (base x) u)).
+  { intros u. destruct (Nat.eq_dec u t) as [->|Ne]; [tauto|apply (Ho u Ne)]. }
+  assert (Hn : noser x' <-> noser x).
+  { unfold noser. split; intros H S; specialize (H S); rewrite Hs in *; exact H. }
+  assert (Hob : forall u, u <> t -> is_ser (stk (base x) u) \/ is_wait (stk (base x) u) ->
+                rnd (stk (base x') u) = rnd (stk (base x) u) /\ wcof (stk (base x') u) = wcof (stk (base x) u)).
+  { intros u Ne. apply (Ho u Ne). }
+  destruct A as [A1 A2 A3 A4 A5 A6 A7 A8 A9 A10 A11 A12 A13].
+  destruct (A9 t Wt Hq) as (T1 & T2 & T3). rewrite Rt in T1, T2, T3.
+  constructor; rewrite ?En, ?Ewd, ?Ea, ?Ep; auto.
+  - intros S S'. rewrite !Hs. apply A3.
+  - intros S HS. rewrite Hs in HS. assert (Ne : S <> t) by (intros ->; exact (Nst HS)).
+    destruct (Hob S Ne (or_introl HS)) as [-> ->]. apply A4. exact HS.
+  - rewrite Hn. exact A5.
+  - intros u Hu. assert (Ne : u <> t) by (intros ->; exact (Hq Hu)).
+    destruct (A7 u Hu) as (C1 & C2 & C3 & C4). destruct (Hob u Ne (or_intror C2)) as [-> _].
+    rewrite Hn. split; [exact C1|]. split; [apply (Ho u Ne); exact C2|]. split; [|exact C4].
+    intros S HS. rewrite Hs in HS. assert (NeS : S <> t) by (intros ->; exact (Nst HS)).
+    destruct (Hob S NeS (or_introl HS)) as [-> _]. apply C3. exact HS.
+  - intros u k' Hu Hp. rewrite Hn. destruct (Nat.eq_dec u t) as [->|Ne].
+    + rewrite (O3 _ Hp). destruct Hreg as [->|Hns].
+      * exfalso. rewrite Es in Hp. cbn in Hp. discriminate.
+      * split; [exact Hns|]. rewrite <- (T2 Hns). lia.
+    + apply (A8 u k' Hu). apply (Ho u Ne). exact Hp.
+  - intros u Hw Hi. destruct (Nat.eq_dec u t) as [->|Ne]; [exfalso; exact (O2 Hw)|].
+    pose proof (proj1 (proj1 (proj2 (Ho u Ne))) Hw) as Hw0.
+    destruct (Hob u Ne (or_intror Hw0)) as [-> _]. rewrite Hn.
+    destruct (A9 u Hw0 Hi) as (C1 & C2 & C3). split; [|split; [exact C2|exact C3]].
+    intros S HS. rewrite Hs in HS. assert (NeS : S <> t) by (intros ->; exact (Nst HS)).
+    destruct (Hob S NeS (or_introl HS)) as [-> _]. apply C1. exact HS.
+  - intros t0 k0 r0. rewrite Err, in_app_iff. intros [H|[H|[]]]; [eauto|]. injection H as <- <- <-. exact T3.
+  - intros u Hw. destruct (Nat.eq_dec u t) as [->|Ne]; [exfalso; exact (O2 Hw)|]. apply A12. apply (Ho u Ne). exact Hw.
+  - intros H. rewrite Ei. apply A13. apply Hn. exact H.
+Qed.
+
+Lemma pigeon (l : list nat) n t :
+  NoDup l -> (forall u, In u l -> (u < n)%nat) -> ~ In t l -> (t < n)%nat -> S (length l) = n ->
+  forall u, (u < n)%nat -> u = t \/ In u l.
+Proof.
+  intros N Hl Ht Htn Hlen u Hu.
+  assert (Hincl : incl (seq 0 n) (t :: l)).
+  { apply NoDup_length_incl.
+    - constructor; assumption.
+    - cbn. rewrite seq_length. lia.
+    - intros v [<-|Hv]; apply in_seq; [lia|]. specialize (Hl v Hv). lia. }
+  destruct (Hincl u) as [H|H]; [apply in_seq; lia|left; auto|right; exact H].
+Qed.
+
+Lemma div_mod_succ v : 0 <= v ->
+  ((v + 1) mod count <> 0 -> (v + 1) / count = v / count /\ (v + 1) mod count = v mod count + 1) /\
+  ((v + 1) mod count = 0 -> (v + 1) / count = v / count + 1 /\ v mod count = count - 1).
+Proof.
+  intros Hv. assert (Hc : 0 < count) by lia.
+  pose proof (Z.div_mod v count ltac:(lia)) as E. pose proof (Z.mod_pos_bound v count Hc) as B.
+  pose proof (Z.div_mod (v + 1) count ltac:(lia)) as E'. pose proof (Z.mod_pos_bound (v + 1) count Hc) as B'.
+  set (q := v / count) in *. set (r := v mod count) in *.
+  set (q' := (v + 1) / count) in *. set (r' := (v + 1) mod count) in *.
+  assert (count * (q' - q) = r + 1 - r') by lia.
+  assert (q' - q = 0 \/ q' - q = 1) by nia.
+  split; intros H'; nia.
+Qed.
+
+Lemma pre_round_obs sg k : pre_round sg = Some k -> ~ is_ser sg /\ ~ is_wait sg.
+Proof.
+  unfold pre_round, is_ser, is_wait. intros H.
+  destruct sg as [|[] [|[] [|]]]; try discriminate; destruct c; try discriminate; cbn;
+    split; intros (? & ? & ?); discriminate.
+Qed.
+
+(* a fiber arrives and is not the last of its group: it will wait *)
+Lemma GA_arrive_wait x x' t n k :
+  GA count x ->
+  (forall u, u <> t -> same_obs (stk (base x) u) (stk (base x') u)) ->
+  pre_round (stk (base x) t) = Some k -> (t < nthr (base x))%nat ->
+  bot (stk (base x') t) = Some (BRet n k 0) ->
+  nthr (base x') = nthr (base x) ->
+  word (mem (base x')) 0%nat = word (mem (base x)) 0%nat + 1 ->
+  (word (mem (base x)) 0%nat + 1) mod count <> 0 ->
+  pw x' = pw x ++ [t] -> rets x' = rets x ->
+  arr x' = arr x ++ [(t, k, word (mem (base x)) 0%nat)] ->
+  Z.of_nat (length (arr x)) = word (mem (base x)) 0%nat -> infl x' = infl x ->
+  GA count x'.
+Proof.
+  intros A Ho Hp Htn Bt En Ewd Hmod Ep Err Ea Hlen Ei.
+  destruct (pre_round_obs _ _ Hp) as [Nst Nwt].
+  assert (Wt' : is_wait (stk (base x') t)) by (do 2 eexists; exact Bt).
+  assert (Nst' : ~ is_ser (stk (base x') t)) by (unfold is_ser; rewrite Bt; intros (? & ? & ?); discriminate).
+  assert (Rt' : rnd (stk (base x') t) = k) by (unfold rnd; rewrite Bt; reflexivity).
+  assert (Hs : forall u, is_ser (stk (base x') u) <-> is_ser (stk (base x) u)).
+  { intros u. destruct (Nat.eq_dec u t) as [->|Ne]; [tauto|apply (Ho u Ne)]. }
+  assert (Hn : noser x' <-> noser x).
+  { unfold noser. split; intros H S; specialize (H S); rewrite Hs in *; exact H. }
+  assert (Hob : forall u, u <> t -> is_ser (stk (base x) u) \/ is_wait (stk (base x) u) ->
+                rnd (stk (base x') u) = rnd (stk (base x) u) /\ wcof (stk (base x') u) = wcof (stk (base x) u)).
+  { intros u Ne. apply (Ho u Ne). }
+  destruct A as [A1 A2 A3 A4 A5 A6 A7 A8 A9 A10 A11 A12 A13].
+  destruct (A8 t k Htn Hp) as [Ns Hk].
+  assert (Ns' : noser x') by (apply Hn; exact Ns).
+  set (v := word (mem (base x)) 0%nat) in *.
+  destruct (div_mod_succ v A2) as [D _]. destruct (D Hmod) as [Dq Dr].
+  assert (Htq : ~ In t (pw x)).
+  { intros Hi. destruct (A7 t Hi) as (_ & C2 & _). exact (Nwt C2). }
+  constructor; rewrite ?En, ?Ewd, ?Err; auto.
+  - lia.
+  - intros S S' HS. exfalso. exact (Ns' S HS).
+  - intros S HS. exfalso. exact (Ns' S HS).
+  - intros _. rewrite Ep, app_length, Nat2Z.inj_add, (A5 Ns), Dr. cbn. lia.
+  - rewrite Ep. apply nodup_snoc; assumption.
+  - intros u Hu. rewrite Ep in Hu. apply in_app_iff in Hu. destruct Hu as [Hu|[<-|[]]].
+    + assert (Ne : u <> t) by (intros ->; exact (Htq Hu)).
+      destruct (A7 u Hu) as (C1 & C2 & C3 & C4). destruct (Hob u Ne (or_intror C2)) as [-> _].
+      split; [exact C1|]. split; [apply (Ho u Ne); exact C2|].
+      split; [intros S HS; exfalso; exact (Ns' S HS)|]. intros _. rewrite Dq. apply C4. exact Ns.
+    + split; [exact Htn|]. split; [exact Wt'|]. split; [intros S HS; exfalso; exact (Ns' S HS)|].
+      intros _. rewrite Rt', Dq. exact Hk.
+  - intros u k' Hu Hp'. split; [exact Ns'|]. destruct (Nat.eq_dec u t) as [->|Ne].
+    + exfalso. destruct (pre_round_obs _ _ Hp') as [_ H]. exact (H Wt').
+    + rewrite Dq. apply (A8 u k' Hu). apply (Ho u Ne). exact Hp'.
+  - intros u Hw Hi. assert (Ne : u <> t).
+    { intros ->. apply Hi. rewrite Ep. apply in_app_iff. right. left. reflexivity. }
+    pose proof (proj1 (proj1 (proj2 (Ho u Ne))) Hw) as Hw0.
+    assert (Hi0 : ~ In u (pw x)) by (intros H; apply Hi; rewrite Ep; apply in_app_iff; left; exact H).
+    destruct (Hob u Ne (or_intror Hw0)) as [-> _]. destruct (A9 u Hw0 Hi0) as (C1 & C2 & C3).
+    split; [intros S HS; exfalso; exact (Ns' S HS)|]. split; [intros _; rewrite Dq; apply C2; exact Ns|lia].
+  - intros t0 k0 r0 H. specialize (A10 _ _ _ H). lia.
+  - intros i t0 k0 v0. rewrite Ea. intros Hnth.
+    destruct (Nat.lt_ge_cases i (length (arr x))) as [Lt|Ge].
+    + rewrite nth_error_app1 in Hnth by exact Lt. eapply A11; eauto.
+    + rewrite nth_error_app2 in Hnth by exact Ge.
+      destruct (i - length (arr x))%nat eqn:Di; cbn in Hnth; [|destruct n0; discriminate].
+      injection Hnth as <- <- <-. replace (Z.of_nat i) with v by lia. exact Hk.
+  - intros u Hw. destruct (Nat.eq_dec u t) as [->|Ne]; [exact Htn|]. apply A12. apply (Ho u Ne). exact Hw.
+  - intros _. rewrite Ei. apply A13. exact Ns.
+Qed.
+
+(* the last fiber of a group arrives: it becomes the serial fiber; everybody else is waiting *)
+Lemma GA_arrive_serial x x' t n k :
+  GA count x ->
+  (forall u, u <> t -> same_obs (stk (base x) u) (stk (base x') u)) ->
+  pre_round (stk (base x) t) = Some k -> (t < nthr (base x))%nat ->
+  bot (stk (base x') t) = Some (BRet n k 1) -> wcof (stk (base x') t) = 0 ->
+  nthr (base x') = nthr (base x) ->
+  word (mem (base x')) 0%nat = word (mem (base x)) 0%nat + 1 ->
+  (word (mem (base x)) 0%nat + 1) mod count = 0 ->
+  pw x' = pw x -> rets x' = rets x ->
+  arr x' = arr x ++ [(t, k, word (mem (base x)) 0%nat)] ->
+  Z.of_nat (length (arr x)) = word (mem (base x)) 0%nat ->
+  GA count x'.
+Proof.
+  intros A Ho Hp Htn Bt Hwc En Ewd Hmod Ep Err Ea Hlen.
+  destruct (pre_round_obs _ _ Hp) as [Nst Nwt].
+  assert (St' : is_ser (stk (base x') t)) by (do 2 eexists; exact Bt).
+  assert (Nwt' : ~ is_wait (stk (base x') t)) by (unfold is_wait; rewrite Bt; intros (? & ? & ?); discriminate).
+  assert (Rt' : rnd (stk (base x') t) = k) by (unfold rnd; rewrite Bt; reflexivity).
+  assert (Hob : forall u, u <> t -> is_ser (stk (base x) u) \/ is_wait (stk (base x) u) ->
+                rnd (stk (base x') u) = rnd (stk (base x) u) /\ wcof (stk (base x') u) = wcof (stk (base x) u)).
+  { intros u Ne. apply (Ho u Ne). }
+  destruct A as [A1 A2 A3 A4 A5 A6 A7 A8 A9 A10 A11 A12 A13].
+  destruct (A8 t k Htn Hp) as [Ns Hk].
+  assert (Uq : forall S, is_ser (stk (base x') S) -> S = t).
+  { intros S HS. destruct (Nat.eq_dec S t) as [->|Ne]; [reflexivity|]. exfalso. apply (Ns S). apply (Ho S Ne). exact HS. }
+  assert (Nn' : ~ noser x') by (intros H; exact (H t St')).
+  set (v := word (mem (base x)) 0%nat) in *.
+  destruct (div_mod_succ v A2) as [_ D]. destruct (D Hmod) as [Dq Dr].
+  assert (Htq : ~ In t (pw x)).
+  { intros Hi. destruct (A7 t Hi) as (_ & C2 & _). exact (Nwt C2). }
+  assert (Hlen' : S (length (pw x)) = nthr (base x)).
+  { pose proof (A5 Ns) as H. rewrite Dr in H. rewrite A1. lia. }
+  assert (Hall : forall u, (u < nthr (base x))%nat -> u = t \/ In u (pw x)).
+  { apply pigeon; auto. intros u Hu. apply (A7 u Hu). }
+  assert (Hk' : v + 1 = Z.of_nat k * count).
+  { pose proof (Z.div_mod (v + 1) count ltac:(lia)) as E. rewrite Hmod, Dq in E. lia. }
+  constructor; rewrite ?En, ?Ewd, ?Err, ?Ep; auto.
+  - lia.
+  - intros S S' HS HS'. rewrite (Uq S HS), (Uq S' HS'). reflexivity.
+  - intros S HS. rewrite (Uq S HS), Rt', Hwc. split; [exact Htn|]. split; [exact Hk'|].
+    split; [rewrite (A5 Ns), Dr; lia|]. split; lia.
+  - intros H. exfalso. exact (Nn' H).
+  - intros u Hu. assert (Ne : u <> t) by (intros ->; exact (Htq Hu)).
+    destruct (A7 u Hu) as (C1 & C2 & C3 & C4). destruct (Hob u Ne (or_intror C2)) as [-> _].
+    split; [exact C1|]. split; [apply (Ho u Ne); exact C2|]. split; [|intros H; exfalso; exact (Nn' H)].
+    intros S HS. rewrite (Uq S HS), Rt'. apply Nat2Z.inj. rewrite (C4 Ns). lia.
+  - intros u k' Hu Hp'. exfalso. destruct (Hall u Hu) as [->|Hi].
+    + destruct (pre_round_obs _ _ Hp') as [H _]. exact (H St').
+    + assert (Ne : u <> t) by (intros ->; exact (Htq Hi)).
+      apply (Ho u Ne) in Hp'. destruct (pre_round_obs _ _ Hp') as [_ H]. apply H. apply (A7 u Hi).
+  - intros u Hw Hi. exfalso. assert (Ne : u <> t) by (intros ->; exact (Nwt' Hw)).
+    pose proof (proj1 (proj1 (proj2 (Ho u Ne))) Hw) as Hw0.
+    destruct (A9 u Hw0 Hi) as (_ & _ & C3).
+    assert (Hu : (u < nthr (base x))%nat) by (apply A12; exact Hw0).
+    destruct (Hall u Hu) as [->|Hi']; [exact (Ne eq_refl)|exact (Hi Hi')].
+  - intros t0 k0 r0 H. specialize (A10 _ _ _ H). lia.
+  - intros i t0 k0 v0. rewrite Ea. intros Hnth.
+    destruct (Nat.lt_ge_cases i (length (arr x))) as [Lt|Ge].
+    + rewrite nth_error_app1 in Hnth by exact Lt. eapply A11; eauto.
+    + rewrite nth_error_app2 in Hnth by exact Ge.
+      destruct (i - length (arr x))%nat eqn:Di; cbn in Hnth; [|destruct n0; discriminate].
+      injection Hnth as <- <- <-. replace (Z.of_nat i) with v by lia. exact Hk.
+  - intros u Hw. destruct (Nat.eq_dec u t) as [->|Ne]; [exact Htn|]. apply A12. apply (Ho u Ne). exact Hw.
+  - intros H. exfalso. exact (Nn' H).
+Qed.
+End GAsteps.
+
+Section Steps3.
+Variable count : Z.
+Hypothesis Hcount : 1 <= count.
+
+Lemma ready_lt x t : status_of (base x) t = SReady -> (t < nthr (base x))%nat.
+Proof.
+  unfold status_of. destruct (t <? nthr (base x))%nat eqn:E; [intros _; apply Nat.ltb_lt; exact E|discriminate].
+Qed.
+
+Lemma step_fadd x t n k :
+  L1 count x -> G count x -> status_of (base x) t = SReady ->
+  stk (base x) t = [WFAdd 0 1 5; FC (BArrived n k)] -> G count (lstep x t).
+Proof.
+  intros Lx Gx Hst E. inv_local Gx t E L.
+  match goal with H : quiet _ _ |- _ => pose proof H as (Hpe & Hbl) end.
+  pose proof (ready_lt _ _ Hst) as Htn.
+  destruct Gx as [A Lg N M].
+  set (m := mem (base x)) in *. set (v := word m 0%nat) in *.
+  pose proof (g_cnt _ _ M) as Ec.
+  assert (Hp : pre_round (stk (base x) t) = Some k) by (rewrite E; reflexivity).
+  destruct (g_pre _ _ A t k Htn Hp) as [Ns Hk].
+  assert (Htq : ~ In t (pw x)).
+  { intros Hi. destruct (g_pw _ _ A t Hi) as (_ & (n' & k' & C2) & _). rewrite E in C2. discriminate. }
+  assert (Hlen : Z.of_nat (length (arr x)) = v) by (symmetry; apply (l1_word _ _ Lx)).
+  assert (Eb0 : bot (stk (base x) t) = Some (BArrived n k)) by (rewrite E; reflexivity).
+  assert (Hin : infl x = None) by (apply (g_infl_none _ _ A Ns)).
+  destruct ((v + 1) mod count =? 0) eqn:Eq.
+  - (* serial *)
+    apply Z.eqb_eq in Eq.
+    assert (K : kstep bc (cret (cnt (base x))) m t (stk (base x) t)
+                = (set_word m 0%nat (v + 1), ev t (l_word 0) (50 + 5) (pc64 v) ++ [],
+                   [KHead 0 (count - 1) 0; FC (BRet n k 1)])).
+    { rewrite E, Ec. cbn [kstep ret cret]. fold m. fold v. rewrite Eq. cbn. reflexivity. }
+    destruct (lstep_view x t _ _ _ K) as (Em & Es & Eo & Ecn & Enn).
+    assert (Gc : chain (lstep x t) = chain x) by (rewrite lstep_chain, E; reflexivity).
+    assert (Gi : infl (lstep x t) = infl x) by (rewrite lstep_infl, E; reflexivity).
+    assert (Gp : pw (lstep x t) = pw x).
+    { rewrite lstep_pw, E, Ec. fold m. fold v. rewrite Eq. reflexivity. }
+    assert (Ga : arr (lstep x t) = arr x ++ [(t, k, v)]).
+    { rewrite lstep_arr. rewrite <- lstep_erase. rewrite Eb0, Es. reflexivity. }
+    assert (Gr : rets (lstep x t) = rets x).
+    { rewrite lstep_rets. rewrite <- lstep_erase. rewrite Eb0. reflexivity. }
+    assert (Eno : nodes (lstep x t) = nodes x) by (unfold nodes; rewrite Em, Gc; reflexivity).
+    assert (Hobs : forall u, u <> t -> same_obs (stk (base x) u) (stk (base (lstep x t)) u)).
+    { intros u Ne. rewrite Eo by exact Ne. apply same_obs_refl. }
+    constructor.
+    + apply (GA_arrive_serial count Hcount x _ t n k); auto; try (rewrite Es; reflexivity).
+      rewrite Em. cbn. unfold upd. reflexivity.
+    + apply (GL_frame x); auto; try (rewrite Em; reflexivity).
+      * rewrite Gp. auto.
+      * intros u _. destruct (Nat.eq_dec u t) as [->|Ne]; [rewrite Es, E; cbn; tauto|].
+        rewrite Eo by exact Ne. tauto.
+    + apply (GN_frame x); auto; try (intros; rewrite Em; reflexivity).
+      intros u. destruct (Nat.eq_dec u t) as [->|Ne]; [rewrite Es, E; reflexivity|]. rewrite Eo by exact Ne. reflexivity.
+    + destruct M as [M1 M2 M3 M4]. constructor.
+      * rewrite Ecn. exact M1.
+      * rewrite Em. eapply slots_none_same; eauto.
+      * intros u. rewrite Em. apply M3.
+      * intros u. destruct (Nat.eq_dec u t) as [->|Ne].
+        -- rewrite Es. constructor; [|congruence]. unfold serl, Qp, quiet. rewrite Gp, Em. auto.
+        -- rewrite Eo by exact Ne. apply (lok_frame count x); [| | | |apply M4].
+           ++ rewrite Em. constructor; reflexivity.
+           ++ apply same_ghost_refl; assumption.
+           ++ intros _. rewrite Em. cbn. auto.
+           ++ intros _. rewrite Em. auto.
+  - (* waiter *)
+    apply Z.eqb_neq in Eq.
+    assert (K : kstep bc (cret (cnt (base x))) m t (stk (base x) t)
+                = (set_word m 0%nat (v + 1), ev t (l_word 0) (50 + 5) (pc64 v) ++ [],
+                   [WSaving 0; FC (BRet n k 0)])).
+    { rewrite E, Ec. cbn [kstep ret cret]. fold m. fold v. apply Z.eqb_neq in Eq. rewrite Eq. cbn. reflexivity. }
+    destruct (lstep_view x t _ _ _ K) as (Em & Es & Eo & Ecn & Enn).
+    assert (Gc : chain (lstep x t) = chain x) by (rewrite lstep_chain, E; reflexivity).
+    assert (Gi : infl (lstep x t) = infl x) by (rewrite lstep_infl, E; reflexivity).
+    assert (Gp : pw (lstep x t) = pw x ++ [t]).
+    { rewrite lstep_pw, E, Ec. fold m. fold v. apply Z.eqb_neq in Eq. rewrite Eq. reflexivity. }
+    assert (Ga : arr (lstep x t) = arr x ++ [(t, k, v)]).
+    { rewrite lstep_arr. rewrite <- lstep_erase. rewrite Eb0, Es. reflexivity. }
+    assert (Gr : rets (lstep x t) = rets x).
+    { rewrite lstep_rets. rewrite <- lstep_erase. rewrite Eb0. reflexivity. }
+    assert (Eno : nodes (lstep x t) = nodes x) by (unfold nodes; rewrite Em, Gc; reflexivity).
+    assert (Hobs : forall u, u <> t -> same_obs (stk (base x) u) (stk (base (lstep x t)) u)).
+    { intros u Ne. rewrite Eo by exact Ne. apply same_obs_refl. }
+    constructor.
+    + apply (GA_arrive_wait count Hcount x _ t n k); auto; try (rewrite Es; reflexivity).
+      rewrite Em. cbn. unfold upd. reflexivity.
+    + apply (GL_frame x); auto; try (rewrite Em; reflexivity).
+      * rewrite Gp. intros u Hu. apply in_app_iff. auto.
+      * intros u _. destruct (Nat.eq_dec u t) as [->|Ne]; [rewrite Es, E; cbn; tauto|].
+        rewrite Eo by exact Ne. tauto.
+    + apply (GN_frame x); auto; try (intros; rewrite Em; reflexivity).
+      intros u. destruct (Nat.eq_dec u t) as [->|Ne]; [rewrite Es, E; reflexivity|]. rewrite Eo by exact Ne. reflexivity.
+    + destruct M as [M1 M2 M3 M4]. constructor.
+      * rewrite Ecn. exact M1.
+      * rewrite Em. eapply slots_none_same; eauto.
+      * intros u. rewrite Em. apply M3.
+      * intros u. destruct (Nat.eq_dec u t) as [->|Ne].
+        -- rewrite Es. constructor; [|rewrite Em; assumption].
+           unfold unq, Qp, Cp, Fp, quiet. rewrite Gp, Gc, Gi, Em. split; [apply in_app_iff; right; left; reflexivity|].
+           split; [|split; [congruence|auto]].
+           intros Hc. apply in_map_iff in Hc. destruct Hc as [[nd u] [Eq' Hc]]. cbn in Eq'. subst u.
+           apply Htq. apply (g_chain _ Lg _ _ Hc).
+        -- rewrite Eo by exact Ne. apply (lok_frame count x); [| | | |apply M4].
+           ++ rewrite Em. constructor; reflexivity.
+           ++ constructor; unfold Qp, Cp, Fp; rewrite ?Gp, ?Gc, ?Gi; try tauto.
+              rewrite in_app_iff. cbn. split; [intros [H|[H|[]]]; [exact H|congruence]|auto].
+           ++ intros _. rewrite Em. cbn. auto.
+           ++ intros _. rewrite Em. auto.
+Qed.
+
+(* a woken waiter returns from fiber_barrier_wait *)
+Lemma step_wreturn x t n k :
+  G count x -> stk (base x) t = [YNext ST_RUNNING; FC (BRet n k 0)] -> (n = O \/ noser x) ->
+  G count (lstep x t).
+Proof.
+  intros Gx E Hreg. inv_local Gx t E L.
+  match goal with H : _ \/ _ |- _ => destruct H as [[Hd _]|[_ P]]; [discriminate|] end.
+  destruct P as (Pf & Pq & (Pp & Pb) & Pn).
+  destruct Gx as [A Lg N M].
+  set (m := mem (base x)) in *.
+  pose proof (g_cnt _ _ M) as Ec.
+  assert (K : kstep bc (cret (cnt (base x))) m t (stk (base x) t)
+              = (m, ev t 900 99 0 ++ retev t k 0 ++ fst (start t n (S k)), start_stack t n (S k))).
+  { rewrite E, Ec. cbn [kstep]. cbn [Z.eqb orb ST_RUNNING ST_WAITING ST_DONE ST_SAVING Pos.eqb]. rewrite ret_bret. reflexivity. }
+  destruct (lstep_view x t _ _ _ K) as (Em & Es & Eo & Ecn & Enn).
+  assert (Gn : ghost_neutral (stk (base x) t)) by (rewrite E; exact I).
+  destruct (ghost_neutral_eq x t Gn) as (Gc & Gi & Gp).
+  assert (Eb0 : bot (stk (base x) t) = Some (BRet n k 0)) by (rewrite E; reflexivity).
+  assert (Gr : rets (lstep x t) = rets x ++ [(t, k, 0)]).
+  { rewrite lstep_rets. rewrite <- lstep_erase. rewrite Eb0, Es. destruct n; reflexivity. }
+  assert (Ga : arr (lstep x t) = arr x).
+  { rewrite lstep_arr. rewrite <- lstep_erase. rewrite Eb0. reflexivity. }
+  assert (Eno : nodes (lstep x t) = nodes x) by (unfold nodes; rewrite Em, Gc; reflexivity).
+  assert (Hobs : forall u, u <> t -> same_obs (stk (base x) u) (stk (base (lstep x t)) u)).
+  { intros u Ne. rewrite Eo by exact Ne. apply same_obs_refl. }
+  constructor.
+  - apply (GA_waiter_return count x _ t n k); auto; rewrite Em; reflexivity.
+  - apply (GL_frame x); auto; try (rewrite Em; reflexivity).
+    + rewrite Gp. auto.
+    + intros u _. destruct (Nat.eq_dec u t) as [->|Ne]; [rewrite Es, E; destruct n; cbn; tauto|].
+      rewrite Eo by exact Ne. tauto.
+  - apply (GN_frame x); auto; try (intros; rewrite Em; reflexivity).
+    intros u. destruct (Nat.eq_dec u t) as [->|Ne]; [rewrite Es, E; destruct n; reflexivity|]. rewrite Eo by exact Ne. reflexivity.
+  - destruct M as [M1 M2 M3 M4]. constructor.
+    + rewrite Ecn. exact M1.
+    + rewrite Em. exact M2.
+    + intros u. rewrite Em. apply M3.
+    + intros u. destruct (Nat.eq_dec u t) as [->|Ne].
+      * rewrite Es. destruct n; cbn; constructor; unfold quiet; rewrite ?Em; auto.
+      * rewrite Eo by exact Ne. apply (lok_frame count x); [| | | |apply M4].
+        -- rewrite Em. constructor; reflexivity.
+        -- apply same_ghost_refl; assumption.
+        -- intros _. rewrite Em. auto 6.
+        -- intros _. rewrite Em. auto.
+Qed.
+
+(* the serial fiber returns without a further wake-up (only when count = 1) *)
+Lemma serial_return_nowake x t n k e :
+  G count x -> bot (stk (base x) t) = Some (BRet n k 1) -> ~ linking (stk (base x) t) ->
+  held (stk (base x) t) = O -> ghost_neutral (stk (base x) t) ->
+  serl x t -> infl x = None -> ~ (wcof (stk (base x) t) < count - 1) ->
+  kstep bc (cret count) (mem (base x)) t (stk (base x) t) = (mem (base x), e, start_stack t n (S k)) ->
+  G count (lstep x t).
+Proof.
+  intros Gx Eb0 Nl Hh Gn (Sq & (Sp & Sb) & Sn & Sf) Hin Hwc K0.
+  destruct Gx as [A Lg N M].
+  set (m := mem (base x)) in *.
+  pose proof (g_cnt _ _ M) as Ec.
+  assert (K : kstep bc (cret (cnt (base x))) m t (stk (base x) t) = (m, e, start_stack t n (S k))) by (rewrite Ec; exact K0).
+  destruct (lstep_view x t _ _ _ K) as (Em & Es & Eo & Ecn & Enn).
+  destruct (ghost_neutral_eq x t Gn) as (Gc & Gi & Gp).
+  assert (Gr : rets (lstep x t) = rets x ++ [(t, k, 1)]).
+  { rewrite lstep_rets. rewrite <- lstep_erase. rewrite Eb0, Es. destruct n; reflexivity. }
+  assert (Ga : arr (lstep x t) = arr x).
+  { rewrite lstep_arr. rewrite <- lstep_erase. rewrite Eb0. reflexivity. }
+  assert (Eno : nodes (lstep x t) = nodes x) by (unfold nodes; rewrite Em, Gc; reflexivity).
+  assert (Hobs : forall u, u <> t -> same_obs (stk (base x) u) (stk (base (lstep x t)) u)).
+  { intros u Ne. rewrite Eo by exact Ne. apply same_obs_refl. }
+  assert (St : is_ser (stk (base x) t)) by (do 2 eexists; exact Eb0).
+  assert (Hpw : pw x = []).
+  { destruct (g_serw _ _ A t St) as (_ & _ & B3 & B4 & B5). destruct (pw x); [reflexivity|]. cbn in B3. lia. }
+  constructor.
+  - apply (GA_serial_return count Hcount x _ t n k); auto; try (rewrite Em; reflexivity); congruence.
+  - apply (GL_frame x); auto; try (rewrite Em; reflexivity).
+    + rewrite Gp. auto.
+    + intros u _. destruct (Nat.eq_dec u t) as [->|Ne]; [rewrite Es; destruct n; cbn; tauto|].
+      rewrite Eo by exact Ne. tauto.
+  - apply (GN_frame x); auto; try (intros; rewrite Em; reflexivity).
+    intros u. destruct (Nat.eq_dec u t) as [->|Ne]; [rewrite Es, Hh; destruct n; reflexivity|]. rewrite Eo by exact Ne. reflexivity.
+  - destruct M as [M1 M2 M3 M4]. constructor.
+    + rewrite Ecn. exact M1.
+    + rewrite Em. exact M2.
+    + intros u. rewrite Em. apply M3.
+    + intros u. destruct (Nat.eq_dec u t) as [->|Ne].
+      * rewrite Es. destruct n; cbn; constructor; unfold quiet; rewrite ?Em; auto.
+      * rewrite Eo by exact Ne. apply (lok_frame count x); [| | | |apply M4].
+        -- rewrite Em. constructor; reflexivity.
+        -- apply same_ghost_refl; assumption.
+        -- intros _. rewrite Em. auto 6.
+        -- intros _. rewrite Em. auto.
+Qed.
+
+Lemma in_remove_iff (l : list nat) f u : u <> f -> (In u (remove Nat.eq_dec f l) <-> In u l).
+Proof. intros N. split; [intros H; apply in_remove in H; tauto|intros H; apply in_in_remove; auto]. Qed.
+
+Lemma presleep_woken x x' f :
+  presleep x f -> Qp x f -> fnode (mem (base x)) f <> O ->
+  ((fstate (mem (base x)) f <> ST_WAITING /\ mem (base x') = wake (mem (base x)) f) \/
+   (fstate (mem (base x)) f = ST_WAITING /\ mem (base x') = wake (set_fstate (mem (base x)) f ST_READY) f)) ->
+  ~ Qp x' f -> presleep x' f.
+Proof.
+  intros (P1 & P2 & [(P3 & P4 & P5)|(P3 & _)]) Hq Hn Hm Hq'; [|contradiction].
+  destruct Hm as [[Hm1 Hm2]|[Hm1 _]]; [|rewrite P1 in Hm1; discriminate].
+  unfold presleep. rewrite Hm2. unfold wake. rewrite P2. cbn [fstate blocked pend fnode set_pend].
+  rewrite upd_same, P5. split; [exact P1|]. split; [exact P2|]. right. auto.
+Qed.
+
+(* the scheduled fiber: in flight -> woken *)
+Lemma lok_woken x x' f sg :
+  lok count x f sg -> Qp x f -> Fp x f -> is_wait sg -> fnode (mem (base x)) f <> O ->
+  ((fstate (mem (base x)) f <> ST_WAITING /\ mem (base x') = wake (mem (base x)) f) \/
+   (fstate (mem (base x)) f = ST_WAITING /\ mem (base x') = wake (set_fstate (mem (base x)) f ST_READY) f)) ->
+  ~ Qp x' f -> lok count x' f sg.
+Proof.
+  intros L Hq Hf Hw Hn Hm Hq'.
+  pose proof (fun P => presleep_woken x x' f P Hq Hn Hm Hq') as PW.
+  destruct L; try (destruct Hw as (n' & k' & Hw); discriminate);
+    repeat match goal with
+           | H : unq _ _ |- _ => destruct H as (_ & _ & Hnf & _); contradiction
+           | H : serl _ _ |- _ => destruct H as (Hnq & _); contradiction
+           end; try contradiction.
+  - constructor. destruct H as [H|H]; [left; auto|destruct H as (_ & H & _); contradiction].
+  - constructor. destruct H as [[Hst H]|[_ H]]; [left; auto|destruct H as (_ & H & _); contradiction].
+  - constructor. auto.
+  - constructor. auto.
+  - constructor. auto.
+  - constructor. auto.
+  - destruct H as [(P1 & P2 & P3 & P4 & P5)|(P1 & _)]; [|contradiction].
+    destruct Hm as [[Hm1 _]|[_ Hm2]]; [contradiction|].
+    constructor. right. rewrite Hm2. unfold wake. cbn [blocked set_fstate]. rewrite P4.
+    cbn [fstate blocked pend fnode set_blocked set_fstate]. rewrite !upd_same. auto 6.
+Qed.
+
+Lemma wake_same_at m f u : u <> f -> same_at m (wake m f) u.
+Proof.
+  intros N. unfold wake. destruct (blocked m f); constructor; cbn; try reflexivity; apply upd_other; exact N.
+Qed.
+
+(* the serial fiber schedules the fiber whose entry it consumed *)
+Lemma ksched_step x t f wc n k fr m0 e :
+  G count x -> stk (base x) t = [fr; FC (BRet n k 1)] ->
+  serl x t -> infl x = Some f -> fnode (mem (base x)) f <> O ->
+  wcof [fr; FC (BRet n k 1)] = wc -> held [fr; FC (BRet n k 1)] = O -> ~ linking [fr; FC (BRet n k 1)] ->
+  ((fstate (mem (base x)) f <> ST_WAITING /\ m0 = mem (base x)) \/
+   (fstate (mem (base x)) f = ST_WAITING /\ m0 = set_fstate (mem (base x)) f ST_READY)) ->
+  kstep bc (cret count) (mem (base x)) t [fr; FC (BRet n k 1)]
+    = ksched bc (cret count) m0 t 0 (count - 1) wc f e [FC (BRet n k 1)] ->
+  chain (lstep x t) = chain x -> infl (lstep x t) = None -> pw (lstep x t) = remove Nat.eq_dec f (pw x) ->
+  G count (lstep x t).
+Proof.
+  intros Gx E Hser Hi Hfn Hwc Hh Hl Hm0 K0 Gc Gi Gp.
+  pose proof Hser as (Sq & (Sp & Sb) & Sn & Sf).
+  destruct (g_infl _ (g_l _ _ Gx) _ Hi) as [Fq Fnc].
+  destruct (g_pw _ _ (g_a _ _ Gx) _ Fq) as (Flt & Fw & _).
+  assert (Ntf : t <> f) by (intros ->; exact (Sq Fq)).
+  assert (Eb0 : bot (stk (base x) t) = Some (BRet n k 1)) by (rewrite E; reflexivity).
+  assert (St : is_ser (stk (base x) t)) by (do 2 eexists; exact Eb0).
+  destruct Gx as [A Lg N M].
+  set (m := mem (base x)) in *.
+  pose proof (g_cnt _ _ M) as Ec.
+  rewrite ksched_cases in K0.
+  set (m1 := wake m0 f) in *.
+  assert (Wf : fstate m1 = (if fstate m f =? ST_WAITING then upd (fstate m) f ST_READY else fstate m) /\
+               ndata m1 = ndata m /\ nnext m1 = nnext m /\ word m1 = word m /\ qhead m1 = qhead m /\
+               qtail m1 = qtail m /\ fnode m1 = fnode m /\ slot_sched m1 = slot_sched m /\
+               slot_mutex m1 = slot_mutex m /\ slot_wait m1 = slot_wait m /\ slot_mpmc m1 = slot_mpmc m /\
+               (forall u, u <> f -> blocked m1 u = blocked m u /\ pend m1 u = pend m u)).
+  { unfold m1, wake. destruct Hm0 as [[H1 ->]|[H1 ->]].
+    - apply Z.eqb_neq in H1. rewrite H1. destruct (blocked m f); cbn; repeat split; auto; apply upd_other; auto.
+    - rewrite H1. cbn [blocked set_fstate]. destruct (blocked m f); cbn; repeat split; auto; apply upd_other; auto. }
+  destruct Wf as (W1 & W2 & W3 & W4 & W5 & W6 & W7 & W8 & W9 & W10 & W11 & W12).
+  assert (W1' : forall u, u <> f -> fstate m1 u = fstate m u).
+  { intros u Ne. rewrite W1. destruct (fstate m f =? ST_WAITING); [apply upd_other; exact Ne|reflexivity]. }
+  assert (Hmm : (fstate m f <> ST_WAITING /\ m1 = wake m f) \/ (fstate m f = ST_WAITING /\ m1 = wake (set_fstate m f ST_READY) f)).
+  { unfold m1. destruct Hm0 as [[H1 ->]|[H1 ->]]; auto. }
+  assert (Hlok : forall x', mem (base x') = m1 -> pw x' = remove Nat.eq_dec f (pw x) -> chain x' = chain x ->
+                 infl x' = None -> forall u, u <> t -> lok count x u (stk (base x) u) -> lok count x' u (stk (base x) u)).
+  { intros x' Em' Ep' Ec' Ei' u Ne Lu. destruct (Nat.eq_dec u f) as [->|Nf].
+    - apply (lok_woken x); auto.
+      + destruct Hmm as [[H1 H2]|[H1 H2]]; [left|right]; split; auto; rewrite Em'; exact H2.
+      + unfold Qp. rewrite Ep'. apply remove_In.
+    - apply (lok_frame count x); [| | | |exact Lu].
+      + rewrite Em'. constructor; [apply W1'; exact Nf|apply W12; exact Nf|apply W12; exact Nf|rewrite W7; reflexivity].
+      + constructor; unfold Qp, Cp, Fp; rewrite ?Ep', ?Ec', ?Ei', ?Hi; try tauto.
+        * apply in_remove_iff. exact Nf.
+        * split; [discriminate|intros H; injection H as ->; congruence].
+      + intros Hs. exfalso. apply Ne. apply (g_ser1 _ _ A); assumption.
+      + intros _. rewrite Em', W2, W3. auto. }
+  destruct (wc + 1 <? count - 1) eqn:Hlt.
+  - (* more waiters to collect *)
+    apply Z.ltb_lt in Hlt.
+    assert (K : kstep bc (cret (cnt (base x))) m t (stk (base x) t)
+                = (m1, e ++ ev t 901 919 (Zn f), [KHead 0 (count - 1) (wc + 1); FC (BRet n k 1)])) by (rewrite Ec, E; exact K0).
+    destruct (lstep_view x t _ _ _ K) as (Em & Es & Eo & Ecn & Enn).
+    assert (Gr : rets (lstep x t) = rets x).
+    { rewrite lstep_rets. rewrite <- lstep_erase. rewrite Eb0, Es. reflexivity. }
+    assert (Ga : arr (lstep x t) = arr x).
+    { rewrite lstep_arr. rewrite <- lstep_erase. rewrite Eb0. reflexivity. }
+    assert (Eno : nodes (lstep x t) = nodes x) by (unfold nodes; rewrite Em, W5, Gc; reflexivity).
+    assert (Hobs : forall u, u <> t -> same_obs (stk (base x) u) (stk (base (lstep x t)) u)).
+    { intros u Ne. rewrite Eo by exact Ne. apply same_obs_refl. }
+    constructor.
+    + apply (GA_wake_continue count Hcount x _ t f wc); auto; try (rewrite Es; try reflexivity);
+        try (rewrite E; assumption); try (rewrite Em, W4; reflexivity).
+      * do 2 eexists; reflexivity.
+      * rewrite E. reflexivity.
+    + destruct Lg as [L1 L2 L3 L4 L5 L6 L7]. constructor; rewrite ?Eno, ?Gc, ?Gi, ?Em, ?W5, ?W6; auto.
+      * apply (linked_frame m _ (stk (base x))); [rewrite W3; reflexivity| |exact L4].
+        intros u Hu. rewrite Eo; [tauto|]. intros ->. apply Sq.
+        apply in_map_iff in Hu. destruct Hu as [[nd' u'] [Eq Hu]]. cbn in Eq. subst u'. apply (L5 nd' t Hu).
+      * intros nd' u Hu. rewrite W2. destruct (L5 _ _ Hu) as [B1 B2]. split; [exact B1|]. rewrite Gp.
+        apply in_in_remove; [|exact B2]. intros ->. apply Fnc. apply in_map_iff. exists (nd', f). auto.
+      * intros f' Hf'. discriminate.
+    + apply (GN_frame x); auto; try (intros; rewrite Em, W7; reflexivity).
+      intros u. destruct (Nat.eq_dec u t) as [->|Ne]; [rewrite Es, E, Hh; reflexivity|]. rewrite Eo by exact Ne. reflexivity.
+    + destruct M as [M1 M2 M3 M4]. constructor.
+      * rewrite Ecn. exact M1.
+      * rewrite Em. eapply slots_none_same; eauto.
+      * intros u. rewrite Em, W8. apply M3.
+      * intros u. destruct (Nat.eq_dec u t) as [->|Ne].
+        -- rewrite Es. constructor; [|exact Gi]. unfold serl, Qp, quiet. rewrite Gp, Em, W7.
+           destruct (W12 t Ntf) as [-> ->]. rewrite (W1' t Ntf).
+           split; [intros H; apply in_remove in H; tauto|auto].
+        -- rewrite Eo by exact Ne. apply Hlok; auto.
+  - (* the last waiter: the serial fiber returns *)
+    apply Z.ltb_ge in Hlt.
+    assert (K : kstep bc (cret (cnt (base x))) m t (stk (base x) t)
+                = (m1, (e ++ ev t 901 919 (Zn f)) ++ retev t k 1 ++ fst (start t n (S k)), start_stack t n (S k)))
+      by (rewrite Ec, E; exact K0).
+    destruct (lstep_view x t _ _ _ K) as (Em & Es & Eo & Ecn & Enn).
+    assert (Gr : rets (lstep x t) = rets x ++ [(t, k, 1)]).
+    { rewrite lstep_rets. rewrite <- lstep_erase. rewrite Eb0, Es. destruct n; reflexivity. }
+    assert (Ga : arr (lstep x t) = arr x).
+    { rewrite lstep_arr. rewrite <- lstep_erase. rewrite Eb0. reflexivity. }
+    assert (Eno : nodes (lstep x t) = nodes x) by (unfold nodes; rewrite Em, W5, Gc; reflexivity).
+    assert (Hobs : forall u, u <> t -> same_obs (stk (base x) u) (stk (base (lstep x t)) u)).
+    { intros u Ne. rewrite Eo by exact Ne. apply same_obs_refl. }
+    assert (Hpw : pw (lstep x t) = []).
+    { destruct (g_serw _ _ A t St) as (_ & _ & B3 & B4 & B5). rewrite E, Hwc in B3, B4, B5.
+      pose proof (remove_length _ f (g_pw_nodup _ _ A) Fq) as Hl'. rewrite Gp.
+      destruct (remove Nat.eq_dec f (pw x)); [reflexivity|]. cbn in Hl'. lia. }
+    constructor.
+    + apply (GA_serial_return count Hcount x _ t n k); auto; rewrite Em, W4; reflexivity.
+    + destruct Lg as [L1 L2 L3 L4 L5 L6 L7]. constructor; rewrite ?Eno, ?Gc, ?Gi, ?Em, ?W5, ?W6; auto.
+      * apply (linked_frame m _ (stk (base x))); [rewrite W3; reflexivity| |exact L4].
+        intros u Hu. rewrite Eo; [tauto|]. intros ->. apply Sq.
+        apply in_map_iff in Hu. destruct Hu as [[nd' u'] [Eq Hu]]. cbn in Eq. subst u'. apply (L5 nd' t Hu).
+      * intros nd' u Hu. rewrite W2. destruct (L5 _ _ Hu) as [B1 B2]. split; [exact B1|]. rewrite Gp.
+        apply in_in_remove; [|exact B2]. intros ->. apply Fnc. apply in_map_iff. exists (nd', f). auto.
+      * intros f' Hf'. discriminate.
+    + apply (GN_frame x); auto; try (intros; rewrite Em, W7; reflexivity).
+      intros u. destruct (Nat.eq_dec u t) as [->|Ne]; [rewrite Es, E, Hh; destruct n; reflexivity|]. rewrite Eo by exact Ne. reflexivity.
+    + destruct M as [M1 M2 M3 M4]. constructor.
+      * rewrite Ecn. exact M1.
+      * rewrite Em. eapply slots_none_same; eauto.
+      * intros u. rewrite Em, W8. apply M3.
+      * intros u. destruct (Nat.eq_dec u t) as [->|Ne].
+        -- rewrite Es. destruct (W12 t Ntf) as [Hb' Hp'].
+           destruct n; cbn; constructor; unfold quiet; rewrite ?Em, ?W7, ?Hb', ?Hp', ?(W1' t Ntf); auto.
+        -- rewrite Eo by exact Ne. apply Hlok; auto.
+Qed.
+End Steps3.
